@@ -16,7 +16,8 @@ Grid(L, W, V) == [1..L -> [1..W -> V]]
 ProbVals == {100000, 500000, 290000, 900000, 10000, 125000, 333333, 62500}
 Probs == [tb : ProbVals, rb : ProbVals, lb : ProbVals]
 
-Board(L, W, mv, rw, ls) == [L |-> L, W |-> W, moves |-> mv, rewards |-> rw, loose |-> ls]
+\* rewards are rewards[i][j] / rden (hand-made boards may carry fractional rewards)
+Board(L, W, mv, rw, ls) == [L |-> L, W |-> W, moves |-> mv, rewards |-> rw, loose |-> ls, rden |-> 1]
 
 ExhBoards(maxTiles) ==
     UNION { {Board(lw[1], lw[2], mv, rw, ls) :
@@ -25,10 +26,11 @@ ExhBoards(maxTiles) ==
             : lw \in Shapes(maxTiles) }
 
 RandBoard(L, W) ==
-    Board(L, W,
+    LET d == RandomElement({1, 1, 1, 2, 4})
+    IN  [Board(L, W,
           TLCEval([i \in 1..L |-> [j \in 1..W |-> RandomElement(0..3)]]),
-          TLCEval([i \in 1..L |-> [j \in 1..W |-> RandomElement(0..2)]]),
-          TLCEval([i \in 1..L |-> [j \in 1..W |-> RandomElement(0..1)]]))
+          TLCEval([i \in 1..L |-> [j \in 1..W |-> RandomElement(0..(2 * d + 1))]]),
+          TLCEval([i \in 1..L |-> [j \in 1..W |-> RandomElement(0..1)]])) EXCEPT !.rden = d]
 
 SampShape(lo, hi) == RandomElement({lw \in (1..hi) \X (1..hi) : lw[1] * lw[2] >= lo /\ lw[1] * lw[2] <= hi})
 
